@@ -943,6 +943,7 @@ func ruleSelfRename(c *Ctx, id string) {
 	}
 	// the comparison may be made by a predicate ("sameEntry(dipfrom, dipto, frominum, toinum)"): a private
 	// helper that answers true only where two of its parameters - handed the two looked-up numbers - are equal
+	predWrongSide := false
 	predEqual := func(call *ssa.Call) bool {
 		h := staticCallee(call)
 		if h == nil || !isPrivateHelper(h) || h.Blocks == nil || h.Signature.Results().Len() != 1 {
@@ -1017,6 +1018,18 @@ func ruleSelfRename(c *Ctx, id string) {
 			if r, isR := b.Instrs[len(b.Instrs)-1].(*ssa.Return); isR {
 				walk(r.Results[0], nil, nil, 0)
 			}
+		}
+		// ... and the comparison of the numbers is not confined to the side where two directory inodes differ
+		if guardedBy(h, eq.Block(), func(cd Cond) (bool, bool) {
+			if (cd.Op != token.EQL && cd.Op != token.NEQ) || cd.X == nil || cd.Y == nil {
+				return false, false
+			}
+			if derefNamed(cd.X.Type()) != V.Inode || derefNamed(cd.Y.Type()) != V.Inode || isNilConst(cd.X) || isNilConst(cd.Y) {
+				return false, false
+			}
+			return true, cd.Op == token.NEQ
+		}) {
+			predWrongSide = true
 		}
 		return ok
 	}
@@ -1140,7 +1153,7 @@ func ruleSelfRename(c *Ctx, id string) {
 			}
 			return true, cd.Op == token.NEQ
 		})
-		if wrongSide {
+		if wrongSide || (viaPred && predWrongSide) {
 			ok, why = false, "the comparison is made only where the two directories differ"
 		}
 		R.Analysed[FuncName(ren)] = true
